@@ -207,6 +207,9 @@ def timing(ctx):
     return out, None
 
 
+SIGB = ['-----BEGIN PGP SIGNATURE-----', '', 'iQEzBAEBCgAdFiEE', '=abcd', '-----END PGP SIGNATURE-----']
+
+
 def run(ctx):
     rng = ctx.rng
     wf = [wellformed(rng) for _ in range(ctx.n(4000, 50000))]
@@ -308,6 +311,23 @@ def run(ctx):
         # and what is returned for one spelling is what a lone question returns (answers computed at the start of the run)
         if ('remove_signature', t) in by and call(unsign.remove_signature, t) != by[('remove_signature', t)]:
             fails.append((t, 'remove_signature answers %.80r now and %.80r when asked first' % (call(unsign.remove_signature, t), by[('remove_signature', t)])))
+    for nl in ('\n',):
+        for k in range(ctx.n(1500, 15000)):
+            body = 'b%07d' % k
+            if k % 2:
+                t = nl.join(['-----BEGIN PGP SIGNED MESSAGE-----', '', body] + SIGB) + nl
+                want_s, want_r = True, body
+            else:
+                t = ('x' * 200 + nl) + body + nl
+                t = t + 'y' * (len(nl.join(['-----BEGIN PGP SIGNED MESSAGE-----', '', body] + SIGB) + nl) - len(t))
+                want_s, want_r = False, t
+            sg = bool(unsign.is_signed(t))
+            r = unsign.remove_signature(t)
+            st['cases'] += 1
+            if sg is not want_s or r != want_r:
+                fails.append((t, 'one of many texts of the same length, made and dropped one after the other: is_signed %r, returned %.60r' % (sg, r)))
+                break
+            del t
     # through the paragraph parser: the flag means "remove the signature, then parse", whatever stands before the envelope
     pp = [w[0] for w in wf[:ctx.n(500, 5000)]]
     pp += [pre + t for t in pp[:200] for pre in ('\n', '\n\n', ' \n', '\r\n')] + nest[:100] + mal[:300]
